@@ -343,7 +343,7 @@ func c05LoadRaises(p *Prog, r *Report) {
 	mainId, _ := constValOfKeyStr(p, "internal/model.MainTxId")
 	// the maximum may be accumulated where the records are sorted: kept, dropped, maxSeq := split(records); the
 	// loop evaluated is then the helper's, for a record that is kept (first main record of its key)
-	if len(assignedObjsOf(info, pubLoop.Body, arg)) == 0 {
+	if !assignsDeep(info, pubLoop.Body, arg) {
 		var recordsObj types.Object
 		for _, s := range f.CallSites(kFileGetAllRepo) {
 			if as, ok := f.Nodes[s.Node].Ast.(*ast.AssignStmt); ok && len(as.Lhs) == 2 {
@@ -355,6 +355,16 @@ func c05LoadRaises(p *Prog, r *Report) {
 			body = p.NewFlat(fi.Pkg, sp.loop.Body)
 			fileObj = objOf(info, sp.loop.Value)
 			pubLoop = sp.loop
+		} else if recordsObj != nil {
+			// ... or in Load's own pass over all the records read: the maximum over every record of the main
+			// transaction is at least the maximum over those that stay
+			for _, l := range rangeLoops(fi.Decl.Body) {
+				if objOf(info, l.X) == recordsObj && l.Value != nil && assignsDeep(info, l.Body, arg) {
+					body = p.NewFlat(fi.Pkg, l.Body)
+					fileObj = objOf(info, l.Value)
+					pubLoop = l
+				}
+			}
 		}
 	}
 	good := true
@@ -421,4 +431,16 @@ func assignedObjsOf(info *types.Info, n ast.Node, o types.Object) []types.Object
 		}
 	}
 	return res
+}
+
+// assignsDeep: some statement inside n assigns o.
+func assignsDeep(info *types.Info, n ast.Node, o types.Object) bool {
+	found := false
+	ast.Inspect(n, func(x ast.Node) bool {
+		if x != nil && len(assignedObjsOf(info, x, o)) > 0 {
+			found = true
+		}
+		return !found
+	})
+	return found
 }
